@@ -21,6 +21,7 @@ def run(ctx):
     ctx.touch(f)
     s = sym.summarize(repo, f.qualname)
     vertices, edges, cells, ne = (T.sym(p) for p in f.params[:4])
+    gmparams = f.params
     # the list that is returned as the resampled interfaces
     rets = [n for n in ast.walk(f.node) if isinstance(n, ast.Return) and isinstance(n.value, ast.Tuple)]
     if len(rets) != 1 or len(rets[0].value.elts) != 4 or not isinstance(rets[0].value.elts[3], ast.Name):
@@ -91,6 +92,18 @@ def run(ctx):
     ctx.check(okr, "FORM", f"{GM} / FORM / exactly the vertices in no resampled interface leave their cells", ctx.where(f),
               "for vID, v: if vID not in chain(nEdgeArray): for cid in v.ownCells: cells[cid].vertices.remove(v)",
               "the removal of unused vertices from the cell cycles no longer matches 'vertex id not in any resampled interface'")
+
+    ctx.clause("every cell that still has a vertex is kept: only cells left with no vertex at all are removed")
+    dc = [e for e in s.events if e.kind == "del" and (e.attr or "").lstrip("$") == gmparams[2] and e.loops()]
+    okd = bool(dc)
+    for e in dc:
+        it = e.loops()[-1][2]
+        c = ("bv", 0)
+        want = ("map", c, c, cells, T.b_not(T.ige(T.call("len", (T.attr(T.idx(cells, c), "vertices"),)), 1)))
+        okd = okd and T.alpha(it) == T.alpha(want) and e.key == ("bv", e.loops()[-1][1])
+    ctx.check(okd, "GUARD", f"{GM} / GUARD / a cell is removed only when its cycle is empty", ctx.where(f),
+              "cells_to_remove = [c for c in cells if len(cells[c].vertices) == 0]",
+              "cells are removed under a weaker test than 'no vertex left': a cell bounded by few junctions disappears together with its adjacencies")
 
     ctx.clause("junctions stay at their exact position: resampling never writes a coordinate of an existing vertex")
     reach = sorted(repo.reachable([GM]))
@@ -191,6 +204,7 @@ def _attr(summary, base, name):
 
 _V = "forsys/virtual_edges.py"
 PINNED = [
+    ("cells with fewer than three vertices removed", _V, "        if len(cells[c].vertices) == 0:", "        if len(cells[c].vertices) < 3:"),
     ("resampling snaps kept vertices to a grid", _V, "    # remove all edges\n    edges.clear()", "    for v in vertices.values():\n        v.x = round(v.x, 2)\n        v.y = round(v.y, 2)\n    # remove all edges\n    edges.clear()"),
     ("resampling threshold off by two", _V, "        if len(e) > ne:\n            if not e in alreadySeen", "        if len(e) - 2 > ne:\n            if not e in alreadySeen"),
     ("get_unused_id without the collision loop", _V, "    new_id = len(dictionary)\n    i = 0\n    while dictionary.get(new_id) != None:\n        new_id = len(dictionary) + i\n        i += 1\n    return new_id", "    return len(dictionary)"),
